@@ -77,13 +77,28 @@ def merge_case(draw):
         if max(abs(re[r][k]) for r in range(lay["nref"])) < 0.1:
             re[draw(st.integers(0, lay["nref"] - 1))][k] = draw(st.sampled_from([1.0, -0.7, 0.4]))
     c = [[draw(_cval) for _ in range(M)] for _ in lay["setups"]]
-    return {"layout": lay, "re": re, "im": im, "c": c, "complex": cplx}
+    return {"layout": lay, "re": re, "im": im, "c": c, "complex": cplx, "ints": (not cplx) and draw(st.integers(0, 4)) == 0, "idtype": draw(st.sampled_from(["int64", "int32"]))}
 
 
 def _expected(case):
     lay = case["layout"]
     Phi = np.asarray(case["re"], float) + 1j * np.asarray(case["im"], float)  # (Ntot, M)
     c = np.asarray(case["c"], float)  # (ns, M)
+    if case.get("ints"):
+        # hand-typed whole-number shapes: every setup's array has an integer dtype, the merged values are fractions
+        k = lay["nref"]
+        c = np.where(np.rint(c * 3) == 0, 1.0, np.rint(c * 3))
+        P = np.rint(Phi.real * 6)
+        for mode in range(P.shape[1]):
+            if not np.any(P[:k, mode]):
+                P[0, mode] = 1.0
+        Phi = P.astype(complex)
+        for i, s in enumerate(lay["setups"]):
+            for g in s["chan"]:
+                if g >= k:
+                    Phi[g, :] = P[g, :] / c[i]
+        shapes = [np.rint((c[i][None, :] * Phi[s["chan"], :]).real).astype(case.get("idtype", "int64")) for i, s in enumerate(lay["setups"])]
+        return Phi, c, shapes, c[0][None, :] * Phi
     shapes = [c[i][None, :] * Phi[s["chan"], :] for i, s in enumerate(lay["setups"])]
     exp = c[0][None, :] * Phi  # global order is by construction refs then roving in setup/channel order
     return Phi, c, shapes, exp
@@ -96,6 +111,8 @@ def _nontrivial(j, case):
     unsorted = any(s["ref_ind"] != sorted(s["ref_ind"]) for s in lay["setups"])
     notlead = any(sorted(s["ref_ind"]) != list(range(lay["nref"])) for s in lay["setups"])
     j.tag("complex" if case.get("complex") else "real")
+    if case.get("ints"):
+        j.tag("integer-dtype")
     if unsorted:
         j.tag("ref_order_permuted")
     if notlead:
@@ -249,6 +266,30 @@ def judge_poser(case):
             got = np.asarray(res2[nm].Phi)
             bad = [mode for mode in range(e.shape[1]) if okm[mode] and np.max(np.abs(got[:, mode] - e[:, mode])) > 1e-9 * max(np.max(np.abs(e[:, mode])), 1e-300)]
             j.check(not bad, "poser-remerge-phi", lambda: f"group {nm}: second merge returns stale or wrong shapes for modes {bad}")
+    # the first setup's algorithms are replaced by new objects of the same names (a repeated analysis), then a third merge
+    new_algs = []
+    okm = [abs(Phi[:k, mode] @ Phi[:k, mode]) / max(np.vdot(Phi[:k, mode], Phi[:k, mode]).real, 1e-300) >= 0.05 for mode in range(exp.shape[1])]
+    for a, an in enumerate(case["algs"]):
+        cls, rcls, kw = _ALGS[an]
+        alg = cls(name=f"{an}_{a}_s0", **kw) if kw else cls(name=f"{an}_{a}_s0", nxseg=64)
+        new_algs.append(alg)
+    r_add = sut(setups[0].add_algorithms, *new_algs)
+    if raised(r_add) or list(setups[0].algorithms.values()) != new_algs:
+        j.skip("replacing-algorithms-not-supported")
+        return j
+    for a, alg in enumerate(new_algs):
+        g = case["groups"][a]
+        alg._set_result(_ALGS[case["algs"][a]][1](Fn=2.0 * np.array(g["fn"][0]), Xi=np.array(g["xi"][0]), Phi=(a + 3.0) * shapes[0]))
+    res3 = sut(ms.merge_results)
+    if j.check(not raised(res3), "poser-replaced-raises", lambda: f"{res3!r}"):
+        for a, nm in enumerate(names):
+            fn = 1.5 * np.array(case["groups"][a]["fn"])
+            fn[0] = 2.0 * np.array(case["groups"][a]["fn"][0])
+            j.check(np.allclose(np.asarray(res3[nm].Fn), fn.mean(axis=0), rtol=1e-12), "poser-replaced-fn", lambda: f"group {nm}: merge after the first setup's algorithm was replaced returns {np.asarray(res3[nm].Fn).tolist()}, expected {fn.mean(axis=0).tolist()}")
+            e = (a + 3.0) * exp
+            got = np.asarray(res3[nm].Phi)
+            bad = [mode for mode in range(e.shape[1]) if okm[mode] and np.max(np.abs(got[:, mode] - e[:, mode])) > 1e-9 * max(np.max(np.abs(e[:, mode])), 1e-300)]
+            j.check(not bad, "poser-replaced-phi", lambda: f"group {nm}: merge after the first setup's algorithm was replaced returns stale or wrong shapes for modes {bad}")
     return j
 
 
